@@ -166,10 +166,17 @@ def _style_pair(draw):
     for p_ in parts:
         cuts.append(cuts[-1] + len(p_))
     plain = "".join(parts)
-    if draw(st.booleans()):
+    k = draw(st.integers(0, 3))
+    if k == 0:
         spans = [[cuts[2], cuts[3]], [cuts[4], draw(st.integers(cuts[6], cuts[7]))]]
-    else:
+    elif k == 1:
         spans = [[draw(st.integers(cuts[0], cuts[1])), cuts[3]], [cuts[4], cuts[5]]]
+    elif k == 2:
+        # only the span that crosses the closing tag: the repair reaches back over the gap (w1 + sep) to the opening tag
+        spans = [[cuts[4], draw(st.integers(cuts[6], cuts[7]))]]
+    else:
+        # only the span that contains the opening tag: the repair reaches forward to the closing tag
+        spans = [[draw(st.integers(cuts[0], cuts[1])), draw(st.integers(cuts[2], cuts[4]))]]
     if draw(st.integers(0, 2)) == 0:
         a = draw(st.integers(0, len(plain)))
         spans.append([a, draw(st.integers(a, len(plain)))])
